@@ -176,6 +176,9 @@ def repeated_use(ctx, sims=None):
                     sim1 = simcls() if user_map is None else simcls(memory_value_map=user_map)
                     before = None if user_map is None else {a: v for a, v in user_map[m].items()}
                     view = sim1.inspect_mem(m)
+                    # the words are read once before any step (a view may not remember what it has shown)
+                    for a in hot[:3]:
+                        _ = view.get(a, 0) if isinstance(view, dict) else view[a]
                     for s_ in h1:
                         sim1.step(dict(s_))
                     # the view taken before stepping shows the present contents
